@@ -142,6 +142,13 @@ struct Item
   virtual void prefill(int mode) = 0;
   virtual void getInto(BufferReader &r, std::ostream &o) = 0;
   virtual void showValue(std::ostream &o) = 0;   // the value that was written
+  // the same value as the FIRST operand of a chain on each stream class through that class's OWN static
+  // type (put() above goes through the WriteStream& base), and read through the ReadStream& base
+  // (getShow() above goes through BufferReader's own type): overload resolution may differ
+  virtual void putOwn(WriteSizeCalculator &s) = 0;
+  virtual void putOwn(BufferWriter &s) = 0;
+  virtual void putOwn(FixedBufferWriter &s) = 0;
+  virtual void getBase(ReadStream &r, std::ostream &o) = 0;
 };
 
 template <typename T>
@@ -164,6 +171,15 @@ struct VItem : Item
     C<T>::show(dst, o);
   }
   void showValue(std::ostream &o) override { C<T>::show(v, o); }
+  void putOwn(WriteSizeCalculator &s) override { s << v; }
+  void putOwn(BufferWriter &s) override { s << v; }
+  void putOwn(FixedBufferWriter &s) override { s << v; }
+  void getBase(ReadStream &r, std::ostream &o) override
+  {
+    T x = T();
+    r >> x;
+    C<T>::show(x, o);
+  }
 };
 
 // const char* overload on the writing side, std::string on the reading side
@@ -186,6 +202,15 @@ struct CSItem : Item
     C<std::string>::show(dst, o);
   }
   void showValue(std::ostream &o) override { C<std::string>::show(v, o); }
+  void putOwn(WriteSizeCalculator &s) override { const char *p = v.c_str(); s << p; }
+  void putOwn(BufferWriter &s) override { const char *p = v.c_str(); s << p; }
+  void putOwn(FixedBufferWriter &s) override { const char *p = v.c_str(); s << p; }
+  void getBase(ReadStream &r, std::ostream &o) override
+  {
+    std::string x;
+    r >> x;
+    C<std::string>::show(x, o);
+  }
 };
 
 // array wrappers: W = 0 OwnedArray, 1 FixedArray, 2 ArrayView, 3 FixedArrayView
@@ -202,13 +227,28 @@ struct AItem : Item
     data.resize(n);
     if (n) std::memcpy((void *)data.data(), b.data(), b.size());
   }
-  template <typename A>
-  void emit(WriteStream &w, const A &a)
+  template <typename S, typename A>
+  void emit(S &w, const A &a)
   {
     if (derived) w << a;                                   // static type = the wrapper type
     else { const AbstractArray<E> &base = a; w << base; }  // static type = AbstractArray<E>
   }
-  void put(WriteStream &w) override
+  void put(WriteStream &w) override { putT(w); }
+  void putOwn(WriteSizeCalculator &s) override { putT(s); }
+  void putOwn(BufferWriter &s) override { putT(s); }
+  void putOwn(FixedBufferWriter &s) override { putT(s); }
+  void getBase(ReadStream &r, std::ostream &o) override
+  {
+    size_t n;
+    r >> n;
+    size_t bytes = n * sizeof(E);
+    if (bytes > (size_t(1) << 26)) throw std::runtime_error("harness: array longer than any stream");
+    std::vector<uint8_t> d(bytes + 1);
+    r.read(d.data(), bytes);
+    o << n << " " << hex(d.data(), bytes);
+  }
+  template <typename S>
+  void putT(S &w)
   {
     if (W == 0) { OwnedArray<E> a(data); emit(w, a); }
     else if (W == 1) { FixedArray<E> a(data); emit(w, a); }
@@ -327,7 +367,7 @@ static std::string runT(TS &ts)
     items.back()->ty = ty;
   }
   std::ostringstream out;
-  std::string reuse;
+  std::string reuse, statics;
   // ---- encode with the real BufferWriter, size with the real WriteSizeCalculator
   BufferWriter bw;
   try {
@@ -393,6 +433,61 @@ static std::string runT(TS &ts)
     }
     reuse = res.empty() ? "ok" : res;
   }
+  // ---- every stream class through its OWN static type (each item as the first operand of a chain) and
+  // the reader through the ReadStream& base: same bytes, same prediction, same values
+  {
+    std::string res;
+    try {
+      std::vector<size_t> wrote;
+      {
+        BufferWriter b2;
+        size_t prev = 0;
+        for (auto &it : items) { it->put(b2); wrote.push_back(b2.buffer->size() - prev); prev = b2.buffer->size(); }
+      }
+      WriteSizeCalculator total;
+      for (size_t k = 0; k < items.size() && res.empty(); ++k) {
+        WriteSizeCalculator one;
+        items[k]->putOwn(one);
+        if (one.writtenSize != wrote[k])
+          res = "calcOwn/item" + std::to_string(k) + ":predicted" + std::to_string(one.writtenSize) + "/written" + std::to_string(wrote[k]);
+        items[k]->putOwn(total);
+      }
+      if (res.empty() && total.writtenSize != enc.size())
+        res = "calcOwnTotal:predicted" + std::to_string(total.writtenSize) + "/written" + std::to_string(enc.size());
+      if (res.empty()) {
+        BufferWriter bo;
+        for (auto &it : items) it->putOwn(bo);
+        if (bo.buffer->size() != enc.size() || (!enc.empty() && std::memcmp(bo.buffer->begin(), enc.data(), enc.size()) != 0))
+          res = "writerOwn:" + hex(bo.buffer->begin(), bo.buffer->size());
+      }
+      if (res.empty()) {
+        FixedBufferWriter fo(enc.size());
+        for (auto &it : items) it->putOwn(fo);
+        auto v = fo.getWrittenView();
+        if (v->size() != enc.size() || (!enc.empty() && std::memcmp(v->begin(), enc.data(), enc.size()) != 0))
+          res = "fixedOwn:" + hex(v->begin(), v->size());
+      }
+      if (res.empty()) {
+        std::shared_ptr<AbstractArray<uint8_t>> buf = bw.buffer;
+        BufferReader r(buf);
+        ReadStream &rs = r;
+        for (size_t k = 0; k < items.size() && res.empty(); ++k) {
+          std::ostringstream got, want;
+          items[k]->getBase(rs, got);
+          items[k]->showValue(want);
+          if (got.str() != want.str()) {
+            std::string g = got.str();
+            for (auto &c : g) if (c == ' ') c = ',';
+            res = "readBase/item" + std::to_string(k) + ":" + g;
+          }
+        }
+        if (res.empty() && !r.end()) res = "readBase/notAtEnd";
+      }
+    } catch (const std::exception &) {
+      res = "throw";
+    }
+    statics = res.empty() ? "ok" : res;
+  }
   // ---- every truncation point: exact-size heap copy of the first t bytes, reading must throw
   {
     std::string res;
@@ -428,7 +523,7 @@ static std::string runT(TS &ts)
     }
     if (fw.capacity() != cap) out << "!cap";
   }
-  out << " re=" << reuse;
+  out << " re=" << reuse << " st=" << statics;
   return out.str();
 }
 
